@@ -87,7 +87,8 @@ def run(tier, seed, replay=None):
             if r0.get("thin") and lonly and key[0] == "coneqp":
                 # the input class of the listed kkt_chol2 finding (rank([P; G]) < n): a run that returns 'optimal' with a wrong point there
                 # also disagrees with the other runs - the same finding seen through another clause
-                ck.violation("kkt_chol2|rank([P;G])<n|first-cholesky-%s-singularity" % ("detects" if r0.get("chol_detects") else "misses"),
+                # (the flag is per run: dense and sparse storage factor differently; one run that misses the singularity explains the disagreement)
+                ck.violation("kkt_chol2|rank([P;G])<n|first-cholesky-%s-singularity" % ("detects" if all(r.get("chol_detects") for r in rs) else "misses"),
                              "entry points disagree on the optimal value of an instance whose matrix [P; G] is rank deficient: %s" % vals, r0)
                 continue
             ck.violation("%s|objectives-disagree" % key[0], "entry points disagree on the optimal value of one instance: %s" % vals, rs[0])
